@@ -89,8 +89,8 @@ class Suite:
             self.unmodelled += 1
         return kind, res
 
-    def tree(self, kind_name, max_depth):
-        ops = ds.OPS[kind_name]
+    def tree(self, kind_name, max_depth, ops=None):
+        ops = ops if ops is not None else ds.OPS[kind_name]
         root = Node(ds.ev(f"schema.{kind_name}"), f"schema.{kind_name}", 0, [])
         level = [root]
         frontier = []
@@ -154,6 +154,9 @@ def run(ctx):
     for kind_name in ds.OPS:
         frontier = st.tree(kind_name, depth)
         st.walks(kind_name, frontier, n_walks, 4)
+    # interactions of three or four refinements over a focused universe (exhaustive)
+    for kind_name, (ops, d) in ds.FOCUS.items():
+        st.tree(kind_name, d, ops=ops)
     terms = list(st.cases)
     bad = common.eval_cases(ctx.workdir, "c10", terms, "dcase", "dcase_ok", extra_requires=ds.REQUIRES)
     for i in bad[:10]:
